@@ -371,15 +371,17 @@ theorem step_route {s s' : State} {op : Op} {o : Out} (h : step s op = .ok (s', 
     · cases h
     · split at h
       · split at h
-        · simp only [coreStep, Core.step] at h
-          split at h
-          · cases h
-          · rename_i c' out hs
+        · split at h
+          · cases h; rfl
+          · simp only [coreStep, Core.step] at h
             split at h
             · cases h
-            · split at h
-              · cases h; exact Core.newTasks_cbs hs
+            · rename_i c' out hs
+              split at h
               · cases h
+              · split at h
+                · cases h; exact Core.newTasks_cbs hs
+                · cases h
         · cases h
       all_goals (cases h; rfl)
   | cancel j ids =>
